@@ -10,7 +10,7 @@ for g in $(seq 0 $((N-1))); do
   [ -f $D/group$g ] && SELFTEST_OUT=$D/out$g.md VERIF_SCRATCH=/var/tmp/acetime-verif.selftest$g python3 tools/selftest.py $(cat $D/group$g) > $D/log$g 2>&1 &
 done
 wait
-{ head -5 $D/out0.md; for g in $(seq 0 $((N-1))); do tail -n +6 $D/out$g.md; done | sort; } > seeded/RESULTS.md
+{ head -6 $D/out0.md; for g in $(seq 0 $((N-1))); do tail -n +7 $D/out$g.md; done | sort; } > seeded/RESULTS.md
 git checkout -q evidence/
 rm -rf $D
 grep -c "NOT CAUGHT\|UNEXPECTED" seeded/RESULTS.md
